@@ -34,6 +34,7 @@ type c04Cell struct {
 	ReqSize  int    `json:"req"`     // total size of the encrypted PUT request (0 = small)
 	WrongPin bool   `json:"wrong_pin"`
 	SameConn bool   `json:"same_conn"` // pair-verify on the connection that did pair-setup
+	Retry    bool   `json:"retry"`     // first a complete attempt with a wrong code on the same connection, then the right code
 }
 
 func c04ID(kind string) string {
@@ -132,8 +133,8 @@ var _ io.Reader = &detStream{}
 
 func c04Exec(c *fw.Ctx, cell c04Cell) {
 	c.Eval(1)
-	name := fmt.Sprintf("pin=%s id=%s key=%s eph=%s srp=%s restart=%v req=%d wrong=%v same=%v", cell.Pin, cell.IDKind, cell.KeySeed, cell.EphSeed, cell.SRP, cell.Restart, cell.ReqSize, cell.WrongPin, cell.SameConn)
-	sigCell := fmt.Sprintf("id=%s,srp=%s,restart=%v,req=%d,wrong=%v,same=%v", cell.IDKind, cell.SRP, cell.Restart, cell.ReqSize, cell.WrongPin, cell.SameConn)
+	name := fmt.Sprintf("pin=%s id=%s key=%s eph=%s srp=%s restart=%v req=%d wrong=%v same=%v retry=%v", cell.Pin, cell.IDKind, cell.KeySeed, cell.EphSeed, cell.SRP, cell.Restart, cell.ReqSize, cell.WrongPin, cell.SameConn, cell.Retry)
+	sigCell := fmt.Sprintf("id=%s,srp=%s,restart=%v,req=%d,wrong=%v,same=%v,retry=%v", cell.IDKind, cell.SRP, cell.Restart, cell.ReqSize, cell.WrongPin, cell.SameConn, cell.Retry)
 	fail := func(step, desc string) {
 		c.Report(step+"/"+sigCell, name+": "+desc, cell)
 	}
@@ -181,6 +182,26 @@ func c04Exec(c *fw.Ctx, cell c04Cell) {
 		saved := crand.Reader
 		crand.Reader = &detStream{seed: seed}
 		defer func() { crand.Reader = saved }()
+	}
+	if cell.Retry {
+		// a mistyped code first: start, verify with a wrong code → authentication error, nothing stored
+		ws := &refctl.Setup{}
+		wb, ok := post(refctl.SetupM1())
+		if !ok {
+			return
+		}
+		if err := ws.ParseM2(wb); err != nil {
+			fail("M2", err.Error())
+			return
+		}
+		wm3, _ := ws.M3(refctl.Seed32("retry-a"), "111-22-333")
+		if wb, ok = post(wm3); !ok {
+			return
+		}
+		if ec, err := ws.ParseM4(wb); err != nil || ec != 2 {
+			fail("wrong-code-not-rejected", fmt.Sprintf("wrong code answered with error %d %v", ec, err))
+			return
+		}
 	}
 	body, ok := post(refctl.SetupM1())
 	if !ok {
@@ -359,6 +380,8 @@ func c04Cells(thorough bool) []c04Cell {
 	add(func(x *c04Cell) { x.SRP = "A-leading-zero" })
 	add(func(x *c04Cell) { x.SRP = "S-leading-zero" })
 	add(func(x *c04Cell) { x.WrongPin = true; x.IDKind = "utf8"; x.Pin = pins[2] })
+	add(func(x *c04Cell) { x.Retry = true })
+	add(func(x *c04Cell) { x.Retry = true; x.SameConn = true; x.Pin = pins[3] })
 	if thorough {
 		// the full cross product of the smaller dimensions
 		for _, p := range pins[:4] {
@@ -403,7 +426,7 @@ func init() {
 	fw.Register(&fw.Check{
 		ID:    "C04",
 		Level: "exploration",
-		Rule:  "an independent controller (internal/refctl, no hc import) runs pair-setup, pair-verify and encrypted requests against the real transport for every cell of an explicit input-partition grid: 9 setup codes (default, extremes, adjacent to every trivial code) × controller identifiers {UUID, 1 byte, 63, 64 bytes, multi-byte UTF-8} × 3 Ed25519 identities × X25519 keys incl. one with the high bit set × request sizes {small, 1023, 1024, 1025, 2048, 2049, 4097 bytes} × {fresh, restarted} accessory × {same, new} connection, plus one cell per code-visible shortcut: SRP A and S with a leading zero byte (found by deterministic search), accessory B with a leading zero byte (crypto/rand.Reader steered to a stream found by deterministic search), wrong setup code (must give TLV error 2, store unchanged). quick: one-factor-at-a-time around the base cell; thorough: cross product of the small dimensions. The controller verifies every proof/signature/key the accessory produces. distinct_nontrivial = distinct cells completed",
+		Rule:  "an independent controller (internal/refctl, no hc import) runs pair-setup, pair-verify and encrypted requests against the real transport for every cell of an explicit input-partition grid: 9 setup codes (default, extremes, adjacent to every trivial code) × controller identifiers {UUID, 1 byte, 63, 64 bytes, multi-byte UTF-8} × 3 Ed25519 identities × X25519 keys incl. one with the high bit set × request sizes {small, 1023, 1024, 1025, 2048, 2049, 4097 bytes} × {fresh, restarted} accessory × {same, new} connection, plus one cell per code-visible shortcut: SRP A and S with a leading zero byte (found by deterministic search), accessory B with a leading zero byte (crypto/rand.Reader steered to a stream found by deterministic search), wrong setup code (must give TLV error 2, store unchanged), a wrong-code attempt followed by the right code on the same connection. quick: one-factor-at-a-time around the base cell; thorough: cross product of the small dimensions. The controller verifies every proof/signature/key the accessory produces. distinct_nontrivial = distinct cells completed",
 		Run:   c04Run,
 		Replay: func(c *fw.Ctx, raw json.RawMessage) {
 			var cell c04Cell
